@@ -16,9 +16,11 @@ structure View where
   busyLeft : List Nat
   doneTimeout : Nat
   fault : Nat
+  soft : Bool
   opIdx : Nat
   erasedLog : List Nat
   writtenLog : List Nat
+  mon : Monitors
 
 /-- device `d` (of a `pcnt`-page part following schedule `s`) looks like `v`, no monitor has fired,
     and `slack` ms of sleep make it ready for the next request -/
@@ -33,30 +35,31 @@ structure Sees (pcnt : Nat) (s : Schedule) (d : Device) (v : View) (slack : Nat)
   busyLeft : d.busyLeft = v.busyLeft
   doneTimeout : d.doneTimeout = v.doneTimeout
   fault : d.fault = v.fault
+  soft : d.soft = v.soft
   opIdx : d.opIdx = v.opIdx
   erasedLog : d.erasedLog = v.erasedLog
   writtenLog : d.writtenLog = v.writtenLog
-  mon : d.mon = Monitors.clean
+  mon : d.mon = v.mon
   ready : d.readyAt ≤ d.clock + slack
 
 variable {pcnt : Nat} {s : Schedule}
 
 theorem Sees.tick {d : Device} {v : View} {slack : Nat} (h : Sees pcnt s d v slack) (ms : Nat) :
     Sees pcnt s (d.tick ms) v (slack - ms) := by
-  obtain ⟨h1, h2, h3, h4, h5, h6, h7, h8, h9, h10, h11, h12, h13, h14, h15⟩ := h
-  constructor <;> simp_all [Device.tick]
+  obtain ⟨h1, h2, h3, h4, h5, h6, h7, h8, h9, h10, hso, h11, h12, h13, h14, h15⟩ := h
+  constructor <;> simp_all [Device.tick] <;> (cases hvm : v.mon; simp_all; try (intro hlt; omega))
   omega
 
 theorem Sees.weaken {d : Device} {v : View} {a b : Nat} (h : Sees pcnt s d v a) (hab : a ≤ b) :
     Sees pcnt s d v b := by
-  obtain ⟨h1, h2, h3, h4, h5, h6, h7, h8, h9, h10, h11, h12, h13, h14, h15⟩ := h
+  obtain ⟨h1, h2, h3, h4, h5, h6, h7, h8, h9, h10, hso, h11, h12, h13, h14, h15⟩ := h
   constructor <;> first | assumption | omega
 
 theorem init_sees (pcnt : Nat) (s : Schedule) (f : Nat → Cell) :
     Sees pcnt s (Device.init pcnt s f)
       { state := if s.startErr % 256 = 0 then .idle else .error, status := s.startErr % 256, flash := f,
-        ptr := flashBase, pending := none, busyLeft := [], doneTimeout := 0, fault := 0, opIdx := 0,
-        erasedLog := [], writtenLog := [] } 0 := by
+        ptr := flashBase, pending := none, busyLeft := [], doneTimeout := 0, fault := 0, soft := false, opIdx := 0,
+        erasedLog := [], writtenLog := [], mon := Monitors.clean } 0 := by
   constructor <;> simp [Device.init, Monitors.clean]
 
 /-- GETSTATUS outside an operation: reports status and state, changes nothing we track -/
@@ -64,42 +67,61 @@ theorem getStatus_idle {d : Device} {v : View} (h : Sees pcnt s d v 0)
     (hp : v.pending = none) (hst : v.state ≠ .manifestSync) :
     ∃ t, (d.handle getStatusReq).2 = .bytes (statusReply v.status t v.state.code) ∧
       Sees pcnt s (d.handle getStatusReq).1 v (t % 16777216) := by
-  obtain ⟨h1, h2, h3, h4, h5, h6, h7, h8, h9, h10, h11, h12, h13, h14, h15⟩ := h
+  obtain ⟨h1, h2, h3, h4, h5, h6, h7, h8, h9, h10, hso, h11, h12, h13, h14, h15⟩ := h
   have hr : ¬ d.clock < d.readyAt := by omega
+  have hclk : decide (d.clock < d.readyAt) = false := decide_eq_false hr
   have he : d.handle getStatusReq = (d.observe.getStatus 6) := by simp [Device.handle, getStatusReq]
   refine ⟨d.sched.idleTimeout d.idleIdx, ?_, ?_⟩
   · simp [he, Device.getStatus, Device.observe, h7, hp, h3, hst, h4, take6_statusReply]
   · rw [he]
-    constructor <;> simp_all [Device.getStatus, Device.observe, Monitors.clean]
+    constructor <;> simp_all [Device.getStatus, Device.observe, Monitors.clean] <;> (cases hvm : v.mon; simp_all; try (intro hlt; omega))
 
 /-- GETSTATUS while the pending operation still has busy polls to give -/
 theorem getStatus_busy {d : Device} {v : View} {op : Op} {t : Nat} {rest : List Nat}
     (h : Sees pcnt s d v 0) (hp : v.pending = some op) (hb : v.busyLeft = t :: rest) :
     (d.handle getStatusReq).2 = .bytes (statusReply v.status t 4) ∧
       Sees pcnt s (d.handle getStatusReq).1 { v with state := .dnBusy, busyLeft := rest } (t % 16777216) := by
-  obtain ⟨h1, h2, h3, h4, h5, h6, h7, h8, h9, h10, h11, h12, h13, h14, h15⟩ := h
+  obtain ⟨h1, h2, h3, h4, h5, h6, h7, h8, h9, h10, hso, h11, h12, h13, h14, h15⟩ := h
   have hr : ¬ d.clock < d.readyAt := by omega
+  have hclk : decide (d.clock < d.readyAt) = false := decide_eq_false hr
   have he : d.handle getStatusReq = (d.observe.getStatus 6) := by simp [Device.handle, getStatusReq]
   refine ⟨?_, ?_⟩
   · simp [he, Device.getStatus, Device.observe, h7, hp, h8, hb, h4, take6_statusReply, DState.code]
   · rw [he]
-    constructor <;> simp_all [Device.getStatus, Device.observe, Monitors.clean]
+    constructor <;> simp_all [Device.getStatus, Device.observe, Monitors.clean] <;> (cases hvm : v.mon; simp_all; try (intro hlt; omega))
 
-/-- GETSTATUS completing an operation that the schedule makes fail -/
+/-- the state a failing operation leaves the device in: dfuERROR, or — status-only flavour —
+    dfuDNLOAD_IDLE as after a success -/
+def failState (soft : Bool) : DState := if soft then .dnloadIdle else .error
+
+/-- GETSTATUS completing an operation that the schedule makes fail (either flavour): the reply
+    carries the error status; the default flavour latches it in dfuERROR, the status-only flavour
+    leaves the device in dfuDNLOAD_IDLE with nothing latched -/
 theorem getStatus_fault {d : Device} {v : View} {op : Op}
     (h : Sees pcnt s d v 0) (hp : v.pending = some op) (hb : v.busyLeft = [])
     (hf : v.fault % 256 ≠ 0) :
-    (d.handle getStatusReq).2 = .bytes (statusReply (v.fault % 256) v.doneTimeout 10) ∧
+    (d.handle getStatusReq).2 = .bytes (statusReply (v.fault % 256) v.doneTimeout (failState v.soft).code) ∧
       Sees pcnt s (d.handle getStatusReq).1
-        { v with state := .error, status := v.fault % 256, pending := none, busyLeft := [] }
+        { v with state := failState v.soft, status := if v.soft then v.status else v.fault % 256,
+                 pending := none, busyLeft := [] }
         (v.doneTimeout % 16777216) := by
-  obtain ⟨h1, h2, h3, h4, h5, h6, h7, h8, h9, h10, h11, h12, h13, h14, h15⟩ := h
+  obtain ⟨h1, h2, h3, h4, h5, h6, h7, h8, h9, h10, hso, h11, h12, h13, h14, h15⟩ := h
   have hr : ¬ d.clock < d.readyAt := by omega
+  have hclk : decide (d.clock < d.readyAt) = false := decide_eq_false hr
   have he : d.handle getStatusReq = (d.observe.getStatus 6) := by simp [Device.handle, getStatusReq]
-  refine ⟨?_, ?_⟩
-  · simp [he, Device.getStatus, Device.observe, h7, hp, h8, hb, h10, hf, h9, Device.fail, take6_statusReply, DState.code]
-  · rw [he]
-    constructor <;> simp_all [Device.getStatus, Device.observe, Monitors.clean, Device.fail]
+  cases hsv : v.soft with
+  | false =>
+    refine ⟨?_, ?_⟩
+    · simp [he, Device.getStatus, Device.observe, h7, hp, h8, hb, h10, hf, h9, hso, hsv, Device.fail, failState,
+        take6_statusReply, DState.code]
+    · rw [he]
+      constructor <;> simp_all [Device.getStatus, Device.observe, Monitors.clean, Device.fail, failState] <;> (cases hvm : v.mon; simp_all; try (intro hlt; omega))
+  | true =>
+    refine ⟨?_, ?_⟩
+    · simp [he, Device.getStatus, Device.observe, h7, hp, h8, hb, h10, hf, h9, hso, hsv, Device.failSoft, failState,
+        take6_statusReply, DState.code]
+    · rw [he]
+      constructor <;> simp_all [Device.getStatus, Device.observe, Monitors.clean, Device.failSoft, failState] <;> (cases hvm : v.mon; simp_all; try (intro hlt; omega))
 
 theorem pageAddr_page (p : Nat) : (pageAddr p - flashBase) / pageSize = p := by
   simp only [pageAddr, flashBase, pageSize]; omega
@@ -121,14 +143,15 @@ theorem getStatus_done_erase {d : Device} {v : View} {p : Nat}
         { v with state := .dnloadIdle, pending := none, flash := setCell v.flash p .erased,
                  erasedLog := v.erasedLog ++ [p] }
         (v.doneTimeout % 16777216) := by
-  obtain ⟨h1, h2, h3, h4, h5, h6, h7, h8, h9, h10, h11, h12, h13, h14, h15⟩ := h
+  obtain ⟨h1, h2, h3, h4, h5, h6, h7, h8, h9, h10, hso, h11, h12, h13, h14, h15⟩ := h
   have hr : ¬ d.clock < d.readyAt := by omega
+  have hclk : decide (d.clock < d.readyAt) = false := decide_eq_false hr
   have he : d.handle getStatusReq = (d.observe.getStatus 6) := by simp [Device.handle, getStatusReq]
   have hin : inRange d.pageCount (pageAddr p) 1 = true := inRange_page (by omega) (by omega)
   refine ⟨?_, ?_⟩
   · simp [he, Device.getStatus, h7, hp, h8, hb, h10, hf, h9, Device.apply, hin, take6_statusReply, DState.code, Device.observe, h4]
   · rw [he]
-    constructor <;> simp_all [Device.getStatus, Device.observe, Monitors.clean, Device.apply, pageAddr_page]
+    constructor <;> simp_all [Device.getStatus, Device.observe, Monitors.clean, Device.apply, pageAddr_page] <;> (cases hvm : v.mon; simp_all; try (intro hlt; omega))
 
 /-- GETSTATUS completing a successful set-address -/
 theorem getStatus_done_setAddr {d : Device} {v : View} {p : Nat}
@@ -138,14 +161,15 @@ theorem getStatus_done_setAddr {d : Device} {v : View} {p : Nat}
       Sees pcnt s (d.handle getStatusReq).1
         { v with state := .dnloadIdle, pending := none, ptr := pageAddr p }
         (v.doneTimeout % 16777216) := by
-  obtain ⟨h1, h2, h3, h4, h5, h6, h7, h8, h9, h10, h11, h12, h13, h14, h15⟩ := h
+  obtain ⟨h1, h2, h3, h4, h5, h6, h7, h8, h9, h10, hso, h11, h12, h13, h14, h15⟩ := h
   have hr : ¬ d.clock < d.readyAt := by omega
+  have hclk : decide (d.clock < d.readyAt) = false := decide_eq_false hr
   have he : d.handle getStatusReq = (d.observe.getStatus 6) := by simp [Device.handle, getStatusReq]
   have hin : inRange d.pageCount (pageAddr p) 1 = true := inRange_page (by omega) (by omega)
   refine ⟨?_, ?_⟩
   · simp [he, Device.getStatus, h7, hp, h8, hb, h10, hf, h9, Device.apply, hin, take6_statusReply, DState.code, Device.observe, h4]
   · rw [he]
-    constructor <;> simp_all [Device.getStatus, Device.observe, Monitors.clean, Device.apply]
+    constructor <;> simp_all [Device.getStatus, Device.observe, Monitors.clean, Device.apply] <;> (cases hvm : v.mon; simp_all; try (intro hlt; omega))
 
 /-- GETSTATUS completing a successful one-page write to an erased page -/
 theorem getStatus_done_write {d : Device} {v : View} {p : Nat} {bs : List Nat}
@@ -156,27 +180,29 @@ theorem getStatus_done_write {d : Device} {v : View} {p : Nat} {bs : List Nat}
         { v with state := .dnloadIdle, pending := none, flash := setCell v.flash p (.data bs),
                  writtenLog := v.writtenLog ++ [p] }
         (v.doneTimeout % 16777216) := by
-  obtain ⟨h1, h2, h3, h4, h5, h6, h7, h8, h9, h10, h11, h12, h13, h14, h15⟩ := h
+  obtain ⟨h1, h2, h3, h4, h5, h6, h7, h8, h9, h10, hso, h11, h12, h13, h14, h15⟩ := h
   have hr : ¬ d.clock < d.readyAt := by omega
+  have hclk : decide (d.clock < d.readyAt) = false := decide_eq_false hr
   have he : d.handle getStatusReq = (d.observe.getStatus 6) := by simp [Device.handle, getStatusReq]
   have hin : inRange d.pageCount (pageAddr p) bs.length = true := inRange_page (by omega) (by omega)
   refine ⟨?_, ?_⟩
   · simp [he, Device.getStatus, h7, hp, h8, hb, h10, hf, h9, Device.apply, hin, take6_statusReply, DState.code, Device.observe, h4]
   · rw [he]
-    constructor <;> simp_all [Device.getStatus, Device.observe, Monitors.clean, Device.apply, pageAddr_page, pageAddr_aligned]
+    constructor <;> simp_all [Device.getStatus, Device.observe, Monitors.clean, Device.apply, pageAddr_page, pageAddr_aligned] <;> (cases hvm : v.mon; simp_all; try (intro hlt; omega))
 
 /-- CLRSTATUS in dfuERROR -/
 theorem clrStatus_error {d : Device} {v : View}
     (h : Sees pcnt s d v 0) (hst : v.state = .error) :
     (d.handle clrStatusReq).2 = .count 0 ∧
       Sees pcnt s (d.handle clrStatusReq).1 { v with state := .idle, status := 0 } 0 := by
-  obtain ⟨h1, h2, h3, h4, h5, h6, h7, h8, h9, h10, h11, h12, h13, h14, h15⟩ := h
+  obtain ⟨h1, h2, h3, h4, h5, h6, h7, h8, h9, h10, hso, h11, h12, h13, h14, h15⟩ := h
   have hr : ¬ d.clock < d.readyAt := by omega
+  have hclk : decide (d.clock < d.readyAt) = false := decide_eq_false hr
   have he : d.handle clrStatusReq = d.observe.clrStatus := by simp [Device.handle, clrStatusReq, reqCLRSTATUS, reqDNLOAD]
   refine ⟨?_, ?_⟩
   · simp [he, Device.clrStatus, Device.observe, h3, hst]
   · rw [he]
-    constructor <;> simp_all [Device.clrStatus, Device.observe, Monitors.clean]
+    constructor <;> simp_all [Device.clrStatus, Device.observe, Monitors.clean] <;> (cases hvm : v.mon; simp_all; try (intro hlt; omega))
 
 /-- a DNLOAD carrying a well-formed DfuSe operation inside the flash, in dfuIDLE / dfuDNLOAD_IDLE -/
 theorem dnload_accept {d : Device} {v : View} {wValue : Nat} {data : List Nat} {op : Op}
@@ -187,28 +213,30 @@ theorem dnload_accept {d : Device} {v : View} {wValue : Nat} {data : List Nat} {
       Sees pcnt s (d.handle (dnloadReq wValue data)).1
         { v with state := .dnloadSync, pending := some op, busyLeft := (s.op v.opIdx).busy,
                  doneTimeout := (s.op v.opIdx).doneTimeout, fault := (s.op v.opIdx).fault,
-                 opIdx := v.opIdx + 1 } 0 := by
-  obtain ⟨h1, h2, h3, h4, h5, h6, h7, h8, h9, h10, h11, h12, h13, h14, h15⟩ := h
+                 soft := (s.op v.opIdx).statusOnly, opIdx := v.opIdx + 1 } 0 := by
+  obtain ⟨h1, h2, h3, h4, h5, h6, h7, h8, h9, h10, hso, h11, h12, h13, h14, h15⟩ := h
   have hr : ¬ d.clock < d.readyAt := by omega
+  have hclk : decide (d.clock < d.readyAt) = false := decide_eq_false hr
   have he : d.handle (dnloadReq wValue data) = d.observe.dnload wValue data := by simp [Device.handle, dnloadReq]
   have hst' : d.state = .idle ∨ d.state = .dnloadIdle := by rw [h3]; exact hst
   have ho : opOutside d.pageCount op = false := by rw [h1]; exact hin
   refine ⟨?_, ?_⟩
   · simp [he, Device.dnload, Device.observe, h7, hp, hst', hne, h6, hdec]
   · rw [he]
-    constructor <;> simp_all [Device.dnload, Device.observe, Monitors.clean]
+    constructor <;> simp_all [Device.dnload, Device.observe, Monitors.clean] <;> (cases hvm : v.mon; simp_all; try (intro hlt; omega))
 
 /-- a DNLOAD in dfuERROR is stalled and changes nothing we track -/
 theorem dnload_in_error {d : Device} {v : View} {wValue : Nat} {data : List Nat}
     (h : Sees pcnt s d v 0) (hp : v.pending = none) (hst : v.state = .error) (hb : v.busyLeft = []) :
     (d.handle (dnloadReq wValue data)).2 = .stall ∧
       Sees pcnt s (d.handle (dnloadReq wValue data)).1 v 0 := by
-  obtain ⟨h1, h2, h3, h4, h5, h6, h7, h8, h9, h10, h11, h12, h13, h14, h15⟩ := h
+  obtain ⟨h1, h2, h3, h4, h5, h6, h7, h8, h9, h10, hso, h11, h12, h13, h14, h15⟩ := h
   have hr : ¬ d.clock < d.readyAt := by omega
+  have hclk : decide (d.clock < d.readyAt) = false := decide_eq_false hr
   have he : d.handle (dnloadReq wValue data) = d.observe.dnload wValue data := by simp [Device.handle, dnloadReq]
   refine ⟨?_, ?_⟩
   · simp [he, Device.dnload, Device.observe, h7, hp, h3, hst, Device.stallErr]
   · rw [he]
-    constructor <;> simp_all [Device.dnload, Device.observe, Monitors.clean, Device.stallErr]
+    constructor <;> simp_all [Device.dnload, Device.observe, Monitors.clean, Device.stallErr] <;> (cases hvm : v.mon; simp_all; try (intro hlt; omega))
 
 end BB.Dfu
